@@ -61,6 +61,8 @@ def rpm_op(draw, families, allow_breaks=True):
         sub = draw(st.sampled_from(fam["subs"]))
         nevra = dict(base, name=base["name"] + sub, arch=draw(st.sampled_from(["x86_64", "noarch", "i686", "ppc64le", "armhfp"])),
                      prefix=draw(_prefix), rpm=draw(st.booleans()))
+        if draw(st.integers(0, 3)) == 0:
+            nevra["epoch"] = draw(st.sampled_from([0, 1, 2, 7, 12]))      # a sub-package may carry its own Epoch tag
         srpm_arg = srpm
     op = {"variant": draw(st.sampled_from(VARIANTS)), "arch": draw(st.sampled_from(ARCHES)), "nevra": nevra,
           "path": draw(st.one_of(gen.rel_path, st.just("Server/x86_64/os/Packages/g/x.rpm"))),
@@ -201,8 +203,9 @@ def module_op(draw, uid_pool, list_ids, allow_breaks=True):
 @st.composite
 def module_history(draw, allow_breaks=True, max_ops=20):
     uid_pool = draw(st.lists(st.lists(_part, min_size=2, max_size=4), min_size=1, max_size=3))
-    lists = draw(st.lists(st.lists(st.sampled_from(["a-0:1-1.x86_64", "b-0:1-1.noarch", "a-debuginfo-0:1-1.x86_64", "c-1:2-3.x86_64"]),
-                                   max_size=3), min_size=1, max_size=3))
+    lists = draw(st.lists(st.lists(st.sampled_from(["a-0:1-1.x86_64", "b-0:1-1.noarch", "a-debuginfo-0:1-1.x86_64", "c-1:2-3.x86_64", "zlib-0:1.2-3.x86_64",
+                                                    "d-0:1-1.i686", "e-2:1-1.noarch", "f-0:10-1.x86_64"]),
+                                   max_size=6), min_size=1, max_size=3))
     ops = draw(st.lists(module_op(uid_pool, list(range(len(lists))), allow_breaks), min_size=1, max_size=max_ops))
     return {"lists": lists, "ops": ops}
 
